@@ -21,6 +21,7 @@ import hashlib
 import importlib
 import io
 import json
+import logging
 import math
 import os
 import re
@@ -232,6 +233,7 @@ def evaluate(c: Cell, case: Any, tier: str) -> Ctx:
     """Run the cell body on one case; never raises."""
     ctx = Ctx(c, case, tier)
     out = io.StringIO()
+    logging.disable(logging.WARNING)  # pyttb logs a warning for every copy=False it cannot honour
     try:
         with warnings.catch_warnings(), np.errstate(all="ignore"), contextlib.redirect_stdout(out):
             warnings.simplefilter("ignore")
@@ -338,6 +340,8 @@ def run_task(task: Dict[str, Any]) -> Dict[str, Any]:
     budget_s = task.get("budget_s", 1e9)
     mod = _load(prop)
     c = CELLS[name]
+    findings = load_findings(prop)
+    preds = getattr(mod, "PREDICATES", {})
     res: Dict[str, Any] = dict(
         cell=name,
         shard=shard,
@@ -387,15 +391,22 @@ def run_task(task: Dict[str, Any]) -> Dict[str, Any]:
                 continue
             seen.add(key)
             e = res["sigs"].get(key)
-            size = len(canon(case))
             if e is None:
-                res["sigs"][key] = dict(count=1, case=case, info=info, size=size, cases=[case])
-            else:
-                e["count"] += 1
-                if len(e["cases"]) < 40:
-                    e["cases"].append(case)
-                if size < e["size"]:
-                    e.update(case=case, info=info, size=size)
+                e = res["sigs"][key] = dict(count=0, known={}, unknown=0, case=None, info=None, size=None)
+            e["count"] += 1
+            # every case is classified here, against the open known findings and their predicates
+            hit = None
+            for f in findings:
+                if f.matches(name, kind, detail, case, preds):
+                    hit = f.id
+                    break
+            if hit is not None:
+                e["known"][hit] = e["known"].get(hit, 0) + 1
+                continue
+            e["unknown"] += 1
+            size = len(canon(case))
+            if e["size"] is None or size < e["size"]:
+                e.update(case=case, info=info, size=size)
 
     if c.enum is not None:
         cases = c.enum(tier)
